@@ -14,6 +14,26 @@ correspond  (model = the generated definitions, executed over exact rationals by
   obj     `objective()` vs the model
 search     objective gap to an independently computed optimum (exact linear solve for quadratic cases,
           active-set enumeration verified by KKT otherwise), y/z byte snapshots, rejected combinations
+
+Input classes beyond the plain option cross product (the property quantifies over "every supported combination of
+solver, lamda, z, proxg, G, preconditioner or step-size arguments and initial x; all small real/complex A, y", it is
+a statement about each CALL, so nothing may depend on the memory layout, the Python type of an argument, or on what
+was solved before with the same objects):
+  P        Linop or callable; diagonal, dense SPD, or the trivial preconditioner in the three forms that hand back the
+           very array they receive (Identity, Multiply by 1, `lambda r: r`)        [setup/run streams + search]
+  steps    tau / sigma as arrays (uniform: setup stream vs the scalar of the model; non-uniform, one defaulted or both
+           given with ||S^1/2 K T^1/2||^2 <= 0.9: search), on operators whose dominant entries are off the diagonal
+  layout   y, z, x0 and the matrices of A and G as strided / reversed / offset views, Fortran order, read-only y and z
+  dtype    complex data with a real operator, complex start vector, single precision, integer-dtype matrix
+  scalars  lamda / rho as Python ints, z as the documented float, data scaled by 2^+-20, 2^+-40 (exact homothety)
+  alias    G = Identity / Multiply by 1 / Reshape / the very object passed as A; proxg = NoOp (returns its input)
+  saveobj  save_objective_values=True (must be read-only; the last recorded value is the documented objective)
+  history  2-4 solves that share the A / G / prox / P OBJECTS while lamda, z, y, solver, proxg, step sizes, rho or the
+           operator (another object of the same shape) change; sequential (optionally warm-started with the array the
+           previous solve returned) or interleaved (all constructed first, then advanced in turn).  A step that fails
+           is re-run alone on fresh objects to tell a history-dependent finding (key ...:history, the whole history is
+           the replay) from an ordinary one.  The setup stream does the same at the set-up level (follow-up set-ups on
+           the objects of the previous one vs the model of the follow-up call alone).
 """
 import contextlib
 import inspect
@@ -60,6 +80,10 @@ THEOREMS = ["SigpyVerif.C14." + t for t in [
 ]]
 
 SOLVERS = ["ConjugateGradient", "GradientMethod", "PrimalDualHybridGradient", "ADMM"]
+# realisations of the preconditioner P.  "diag"/"funcdiag"/"identity"/"mul1"/"func" are a diagonal matrix for the model
+# (c["P"] = its diagonal); "dense" (a dense symmetric positive definite MatMul) is explored by the search oracle only.
+PKINDS_MODEL = ["diag", "diag", "funcdiag", "identity", "mul1", "func"]
+P_RETURNS_INPUT = ("identity", "mul1", "func")
 SHORT = {"ConjugateGradient": "cg", "GradientMethod": "gm", "PrimalDualHybridGradient": "pdhg", "ADMM": "admm"}
 
 
@@ -186,11 +210,18 @@ def gen_case(rng, solver=None, force=None):
              G=None if Gm is None else [[fs(t) for t in r] for r in Gm], solver=solver,
              x0=None if rng.random() < 0.5 else [fs(dy(rng, -2, 2, 2)) for _ in range(n)],
              P=None, alpha=None, tau=None, sigma=None, rho="1", acc=rng.random() < 0.6, seed=rng.randint(0, 10 ** 6))
-    if rng.random() < 0.3:
+    if rng.random() < (0.45 if solver in ("ConjugateGradient", "ADMM") else 0.3):
         c["P"] = [fs(rng.choice([Fr(1, 2), Fr(1), Fr(2)])) for _ in range(n)]
+        # how the (symmetric positive definite) preconditioner is realised: the documented `P (Linop)` / the solver's
+        # `P (function or None)`; the trivial preconditioner in the three forms that hand back the very array they get
+        pk_ = rng.choice(PKINDS_MODEL)
+        if pk_ != "diag":
+            c["Pkind"] = pk_
+        if pk_ in P_RETURNS_INPUT:
+            c["P"] = ["1"] * n
     if rng.random() < 0.5:
         c["rho"] = fs(rng.choice([Fr(1, 2), Fr(2), Fr(4)]))
-    c.update({k: v for k, v in force.items() if k in ("x0", "P", "alpha", "tau", "sigma", "rho", "acc")})
+    c.update({k: v for k, v in force.items() if k in ("x0", "P", "Pkind", "alpha", "tau", "sigma", "rho", "acc")})
     return c
 
 
@@ -213,6 +244,10 @@ def explicit_steps(c, rng, alpha=False, tau=False, sigma=False):
         Gd = np.array([[float(F(t)) for t in r] for r in c["G"]])
     elif c["gkind"] == "fd":
         Gd = fd_matrix(n)
+    elif c["gkind"] == "A":
+        Gd = A
+    elif c["gkind"] is not None:
+        Gd = np.eye(n)
     K = A if Gd is None else np.vstack([A, Gd])
     L2 = np.linalg.eigvalsh(K.T @ K).max()
     if tau and sigma:
@@ -241,63 +276,175 @@ class Built:
     pass
 
 
-def build(c, dtype=np.float64):
-    """the real sigpy objects of a case (fresh arrays every time)"""
+def lay(arr, kind):
+    """the same values in another memory layout (the property quantifies over arrays, not over C-contiguous arrays)"""
+    if kind in (None, "c"):
+        return arr
+    if kind == "strided":       # every other row of a larger buffer
+        buf = np.zeros((2 * arr.shape[0],) + arr.shape[1:], dtype=arr.dtype)
+        v = buf[::2]
+        v[...] = arr
+        return v
+    if kind == "neg":           # negative stride along the first axis
+        return arr[::-1].copy()[::-1]
+    if kind == "f":             # Fortran order (differs from C order for matrices only)
+        return np.asfortranarray(arr)
+    if kind == "offset":        # a slice in the middle of a larger buffer (contiguous, but not owning its memory)
+        buf = np.zeros((arr.shape[0] + 3,) + arr.shape[1:], dtype=arr.dtype)
+        v = buf[2:2 + arr.shape[0]]
+        v[...] = arr
+        return v
+    if kind == "readonly":      # an input the solver has no business writing to
+        a = arr.copy()
+        a.flags.writeable = False
+        return a
+    raise ValueError(kind)
+
+
+def scale_of(c):
+    """2**yscale: exact homothety of the data (y, z, x0, the l1 weight and the box bounds are multiplied by it, so
+    the minimiser is multiplied by it and the objective by its square)"""
+    return 2.0 ** int(c.get("yscale") or 0)
+
+
+def unscaled(c):
+    """the case the reference optimum is computed for: data not scaled, double precision"""
+    if not c.get("yscale") and not c.get("single"):
+        return c
+    c = dict(c)
+    c["yscale"] = 0
+    c["single"] = False
+    return c
+
+
+def shared_get(shared, key, make):
+    """objects of a call history: the same specification gives the SAME Python object within one history"""
+    if shared is None:
+        return make()
+    k = json.dumps(key, sort_keys=True, default=str)
+    if k not in shared:
+        shared[k] = make()
+    return shared[k]
+
+
+def build(c, dtype=np.float64, shared=None):
+    """the real sigpy objects of a case (fresh arrays every time; the operator / prox / preconditioner OBJECTS are
+    taken from `shared` when a call history is being built)"""
     from sigpy import linop, prox
     n, m = c["n"], c["m"]
+    L = c.get("layout") or {}
+    s = scale_of(c)
     b = Built()
+
+    def cast(arr):      # single precision data (dyadic values: exactly representable)
+        if not c.get("single"):
+            return arr
+        return arr.astype(np.complex64 if np.iscomplexobj(arr) else np.float32)
     a = dense_A(c).astype(dtype)
     if c.get("cplx"):
         a = a + 1j * np.array(c["Aim"], dtype=np.float64)
+    elif c.get("Aint"):     # an integer-dtype matrix (selection / mask / incidence matrices are given that way)
+        a = a.astype(np.int64)
+    a = cast(a)
     xs = [n, 1]
-    if c["akind"] == "matmul":
-        b.A = linop.MatMul(xs, a)
-        ys = [m, 1]
-    elif c["akind"] == "diag":
-        b.A = linop.Multiply(xs, np.diag(a).copy().reshape(n, 1))
-        ys = [n, 1]
-    elif c["akind"] == "identity":
-        b.A = linop.Identity(xs)
-        ys = [n, 1]
-    elif c["akind"] == "reshape":
-        b.A = linop.Reshape([n], xs)
-        ys = [n]
-    elif c["akind"] == "mul1":
-        b.A = linop.Multiply(xs, 1)
-        ys = [n, 1]
-    else:
+
+    def mkA():
+        if c["akind"] == "matmul":
+            return linop.MatMul(xs, lay(a, L.get("A")))
+        if c["akind"] == "diag":
+            return linop.Multiply(xs, lay(np.diag(a).copy().reshape(n, 1), L.get("A")))
+        if c["akind"] == "identity":
+            return linop.Identity(xs)
+        if c["akind"] == "reshape":
+            return linop.Reshape([n], xs)
+        if c["akind"] == "mul1":
+            return linop.Multiply(xs, 1)
         raise ValueError(c["akind"])
-    b.y = fl(c["y"]).astype(dtype).reshape(ys)
-    if c.get("cplx"):
-        b.y = b.y + 1j * np.array(c["yim"], dtype=np.float64).reshape(ys)
-    b.z = None if c["z"] is None else fl(c["z"]).astype(dtype).reshape(xs)
-    if c.get("cplx") and b.z is not None:
-        b.z = b.z + 1j * np.array(c["zim"], dtype=np.float64).reshape(xs)
+    b.A = shared_get(shared, ("A", c["akind"], c["A"], c.get("Aim"), L.get("A")), mkA)
+    ys = [n] if c["akind"] == "reshape" else [m if c["akind"] == "matmul" else n, 1]
+    cy = c.get("cplx") or c.get("ycplx")
+    y = fl(c["y"]).astype(dtype).reshape(ys)
+    if cy:
+        y = y + 1j * np.array(c["yim"], dtype=np.float64).reshape(ys)
+    b.y = lay(cast(y * s), L.get("y"))
+    b.z = None
+    if c["z"] is not None:
+        z = fl(c["z"]).astype(dtype).reshape(xs)
+        if cy and c.get("zim") is not None:
+            z = z + 1j * np.array(c["zim"], dtype=np.float64).reshape(xs)
+        b.z = lay(cast(z * s), L.get("z"))
+        if c.get("zscalar"):      # documented: `z (float or array)`
+            b.z = float(F(c["z"][0])) * s
     b.G = None
     if c["gkind"] == "dense":
-        g = np.array([[float(F(t)) for t in r] for r in c["G"]], dtype=dtype)
-        b.G = linop.MatMul(xs, g)
+        g = cast(np.array([[float(F(t)) for t in r] for r in c["G"]], dtype=dtype))
+        b.G = shared_get(shared, ("G", "dense", c["G"], L.get("G")), lambda: linop.MatMul(xs, lay(g, L.get("G"))))
     elif c["gkind"] == "fd":
-        b.G = linop.FiniteDifference(xs, axes=[0])
+        b.G = shared_get(shared, ("G", "fd", n), lambda: linop.FiniteDifference(xs, axes=[0]))
+    elif c["gkind"] == "identity":
+        b.G = shared_get(shared, ("G", "identity", n), lambda: linop.Identity(xs))
+    elif c["gkind"] == "mul1":
+        b.G = shared_get(shared, ("G", "mul1", n), lambda: linop.Multiply(xs, 1))
+    elif c["gkind"] == "reshape":
+        b.G = shared_get(shared, ("G", "reshape", n), lambda: linop.Reshape([n], xs))
+    elif c["gkind"] == "A":     # g(A x): the regularisation operator is the very object passed as A
+        b.G = b.A
+    elif c["gkind"] is not None:
+        raise ValueError(c["gkind"])
     gs = xs if b.G is None else list(b.G.oshape)
     b.gshape = gs
     b.proxg, b.g = None, None
     if c["prox"] is not None:
         k = c["prox"][0]
         if k == "l1":
-            cc = float(F(c["prox"][1]))
-            b.proxg = prox.L1Reg(gs, cc)
+            cc = float(F(c["prox"][1])) * s
+            b.proxg = shared_get(shared, ("prox", c["prox"], gs, s), lambda: prox.L1Reg(gs, cc))
             b.g = lambda v: cc * float(np.sum(np.abs(v)))
         elif k == "l2":
             cc = float(F(c["prox"][1]))
-            b.proxg = prox.L2Reg(gs, cc)
+            b.proxg = shared_get(shared, ("prox", c["prox"], gs), lambda: prox.L2Reg(gs, cc))
             b.g = lambda v: cc / 2 * float(np.linalg.norm(v)) ** 2
+        elif k == "noop":       # g = 0 given as a Prox object (returns its input)
+            b.proxg = shared_get(shared, ("prox", c["prox"], gs), lambda: prox.NoOp(gs))
+            b.g = lambda v: 0.0
         else:
-            lo, hi = float(F(c["prox"][1])), float(F(c["prox"][2]))
-            b.proxg = prox.BoxConstraint(gs, lo, hi)
+            lo, hi = float(F(c["prox"][1])) * s, float(F(c["prox"][2])) * s
+            b.proxg = shared_get(shared, ("prox", c["prox"], gs, s), lambda: prox.BoxConstraint(gs, lo, hi))
             b.g = lambda v: 0.0 if (np.all(v >= lo) and np.all(v <= hi)) else math.inf
-    b.x0 = None if c["x0"] is None else fl(c["x0"]).astype(dtype).reshape(xs)
-    b.P = None if c["P"] is None else linop.Multiply(xs, fl(c["P"]).reshape(xs))
+    b.x0 = None
+    if c["x0"] is not None:
+        x0 = fl(c["x0"]).astype(dtype).reshape(xs)
+        if cy:
+            x0 = x0 + 1j * np.array(c.get("x0im") or [0.0] * n, dtype=np.float64).reshape(xs)
+        b.x0 = lay(cast(x0 * s), L.get("x0"))
+    b.P = None
+    if c["P"] is not None:
+        pk = c.get("Pkind") or "diag"
+        pv = fl(c["P"]).reshape(xs)
+
+        def mkP():
+            if pk == "diag":
+                return linop.Multiply(xs, pv)
+            if pk == "funcdiag":
+                return lambda r: pv * r
+            if pk == "identity":
+                return linop.Identity(xs)
+            if pk == "mul1":
+                return linop.Multiply(xs, 1)
+            if pk == "func":
+                return lambda r: r
+            if pk == "dense":
+                return linop.MatMul(xs, np.array([[float(F(t)) for t in r] for r in c["Pmat"]]))
+            raise ValueError(pk)
+        b.P = shared_get(shared, ("P", pk, c["P"], c.get("Pmat")), mkP)
+    # step sizes: scalars, or arrays (diagonal preconditioners; fresh arrays, the solver rescales them in place)
+    b.tau = optf(c["tau"])
+    if c.get("tau_arr") is not None:
+        b.tau = fl(c["tau_arr"]).reshape(xs)
+    b.sigma = optf(c["sigma"])
+    if c.get("sigma_arr") is not None:
+        ds = ys if b.G is None else [int(np.prod(ys)) + int(np.prod(gs))]
+        b.sigma = fl(c["sigma_arr"]).reshape(ds)
     b.xs = xs
     return b
 
@@ -306,11 +453,21 @@ def optf(s):
     return None if s is None else float(F(s))
 
 
+def numarg(c, key):
+    """a scalar option as the caller passes it: a Python int when the case says so (lamda=1, rho=2), else a float"""
+    v = F(c[key])
+    if c.get("intargs") and v.denominator == 1:
+        return int(v)
+    return float(v)
+
+
 def make_app(c, b, max_iter, max_cg_iter=10, **over):
     from sigpy import app
-    kw = dict(x=b.x0, proxg=b.proxg, lamda=float(F(c["lam"])), G=b.G, g=b.g, z=b.z, solver=c["solver"],
-              max_iter=max_iter, P=b.P, alpha=optf(c["alpha"]), accelerate=c["acc"], tau=optf(c["tau"]),
-              sigma=optf(c["sigma"]), rho=float(F(c["rho"])), max_cg_iter=max_cg_iter, show_pbar=False)
+    kw = dict(x=b.x0, proxg=b.proxg, lamda=numarg(c, "lam"), G=b.G, g=b.g, z=b.z, solver=c["solver"],
+              max_iter=max_iter, P=b.P, alpha=optf(c["alpha"]), accelerate=c["acc"], tau=b.tau,
+              sigma=b.sigma, rho=numarg(c, "rho"), max_cg_iter=max_cg_iter, show_pbar=False)
+    if c.get("saveobj"):
+        kw["save_objective_values"] = True
     kw.update(over)
     return app.LinearLeastSquares(b.A, b.y, **kw)
 
@@ -321,6 +478,8 @@ def dense_G(c, b=None):
         return None
     if c["gkind"] == "dense":
         return np.array([[float(F(t)) for t in r] for r in c["G"]])
+    if c["gkind"] == "A":
+        return dense_A(c)
     b = b or build(c)
     n = c["n"]
     cols = [np.asarray(b.G(np.eye(n)[:, j].reshape(b.xs))).ravel() for j in range(n)]
@@ -428,10 +587,12 @@ def stream_sel(ctx):
     ctx.oblige("correspondence:C14.sel", "correspondence", bad == 0, "%d disagreements over %d option combinations" % (bad, len(lines)))
 
 
-def setup_check(ctx, c, rng):
+def setup_check(ctx, c, rng, shared=None):
     """build the real app under the recorder, probe what it built, compare with the model's set-up.
-    Returns list of mismatch descriptions (empty = agree) or None when the combination is rejected."""
-    b = build(c)
+    Returns list of mismatch descriptions (empty = agree) or None when the combination is rejected.
+    `shared`: operator / prox / preconditioner objects of earlier set-ups of the same call history (the set-up of a
+    call must not depend on what was set up before with the same objects)."""
+    b = build(c, shared=shared)
     rec = []
     n, m = c["n"], c["m"]
     np.random.seed(c["seed"] % (2 ** 31))
@@ -536,9 +697,10 @@ def setup_check(ctx, c, rng):
                         if not close(ci, cm):
                             mism.append("operator given to MaxEig (%s), column %d: impl %s model %s" % (r["side"], j, ci.tolist(), [float(t) for t in cm]))
             # step sizes as handed to the solver (tau is rescaled in place by later updates; none ran yet)
-            if not close([a.alg.tau], [Fr(r["tau"])]):
+            # (a uniform array step size is the scalar of the model in every entry)
+            if not close(np.ravel(a.alg.tau), [Fr(r["tau"])] * np.size(a.alg.tau)):
                 mism.append("tau: impl %r model %s" % (a.alg.tau, r["tau"]))
-            if not close([a.alg.sigma], [Fr(r["sigma"])]):
+            if not close(np.ravel(a.alg.sigma), [Fr(r["sigma"])] * np.size(a.alg.sigma)):
                 mism.append("sigma: impl %r model %s" % (a.alg.sigma, r["sigma"]))
             if not (np.all(a.alg.u == 0) and a.alg.u.size == d):
                 mism.append("dual variable not zeros(%d)" % d)
@@ -592,18 +754,49 @@ def setup_check(ctx, c, rng):
         return mism
 
 
+def follow_up(c, rng):
+    """the next call of a history on the same operator objects: same A / G / prox / P specification (hence, within a
+    history, the same objects), another lamda / z / solver / step-size choice"""
+    c = json.loads(json.dumps(c))
+    c["seed"] = rng.randint(0, 10 ** 6)
+    lam = F(c["lam"])
+    c["lam"] = fs(rng.choice([t for t in [Fr(0), Fr(1, 2), Fr(1), Fr(2), Fr(4), Fr(8)] if t != lam]))
+    if rng.random() < 0.3:
+        c["z"] = None if c["z"] is not None else [fs(dy(rng, -3, 3, 2)) for _ in range(c["n"])]
+    c["alpha"], c["tau"], c["sigma"] = None, None, None
+    c.pop("tau_arr", None)
+    r_ = rng.random()
+    if r_ < 0.3:
+        explicit_steps(c, rng, alpha=rng.random() < 0.5, tau=rng.random() < 0.5, sigma=rng.random() < 0.5)
+    if rng.random() < 0.25:
+        s_ = rng.choice(SOLVERS)
+        if not (s_ == "ConjugateGradient" and c["prox"] is not None) and not (s_ == "GradientMethod" and c["gkind"] is not None):
+            c["solver"] = s_
+    return c
+
+
 def stream_setup(ctx, ncases):
     rng = ctx.rng
     bad = rejected = 0
+    hist, shared = [], None
     for i in range(ncases):
         solver = ([None] + SOLVERS)[i % 5]
-        c = gen_case(rng, solver=solver)
-        r_ = rng.random()
-        explicit_steps(c, rng, alpha=rng.random() < 0.5, tau=r_ < 0.5, sigma=r_ < 0.3 or 0.5 <= r_ < 0.7)
+        if hist and len(hist) < 3 and i % 4 != 0:
+            # call history: the previous set-up's operator objects are reused with other options
+            c = follow_up(hist[-1], rng)
+        else:
+            hist, shared = [], ({} if i % 4 == 0 else None)
+            c = gen_case(rng, solver=solver)
+            r_ = rng.random()
+            explicit_steps(c, rng, alpha=rng.random() < 0.5, tau=r_ < 0.5, sigma=r_ < 0.3 or 0.5 <= r_ < 0.7)
+            if c["tau"] is not None and rng.random() < 0.25:     # the step size given as a (uniform) array
+                c["tau_arr"] = [c["tau"]] * c["n"]
         try:
-            mism = setup_check(ctx, c, rng)
+            mism = setup_check(ctx, c, rng, shared=shared)
         except Exception as e:  # the constructor accepted it, so its parts must be usable
             mism = ["probing the set-up raised %r" % (e,)]
+        if shared is not None:
+            hist.append(c)
         key = (c["solver"], c["lam"] != "0", c["z"] is not None, c["prox"] and c["prox"][0], c["gkind"], c["akind"])
         if mism is None:
             rejected += 1
@@ -615,9 +808,13 @@ def stream_setup(ctx, ncases):
                              agree=not mism) if i % 23 == 0 else None)
         ctx.count("setup:%s|lam%s|z%d|prox=%s|G=%s" % (c["solver"], ">0" if c["lam"] != "0" else "=0", c["z"] is not None,
                                                       c["prox"] and c["prox"][0], c["gkind"]))
+        ctx.count("setup:history-position-%d" % (len(hist) if shared is not None else 0))
         if mism:
             bad += 1
-            ctx.disagree("setup", dict(kind="setup", case=c), mism[:3], "model set-up")
+            dc = dict(kind="setup", case=c)
+            if shared is not None and len(hist) > 1:
+                dc["history"] = dict(kind="history", sweep="setup", mode="sequential", warm=False, steps=list(hist))
+            ctx.disagree("setup", dc, mism[:3], "model set-up")
     ctx.oblige("correspondence:C14.setup", "correspondence", bad == 0,
                "%d of %d set-ups differ from the model (%d rejected combinations)" % (bad, ncases, rejected))
 
@@ -852,7 +1049,13 @@ def correspond(ctx):
                 "constructor accepted it (rejected combinations are counted separately); power stream: small dyadic symmetric PSD "
                 "(B^T B + c I) or general matrices, PowerMethod (built directly from a dyadic start vector, or the one inside a real "
                 "MaxEig with its seeded util.randn start vector) compared update by update from the real object's own state, "
-                "max_iter in {0,1,2,3,5,8,30,default}; non-trivial = the estimate moves between updates")
+                "max_iter in {0,1,2,3,5,8,30,default}; non-trivial = the estimate moves between updates; "
+                "P realised as Multiply(array) / callable / Identity / Multiply by 1 / lambda r: r (same diagonal in the model); "
+                "setup stream: every 4th case starts a call history whose next two set-ups reuse the same operator / prox / P "
+                "objects with another lamda / z / solver / steps (compared with the model of that call alone), a given tau is "
+                "passed as a uniform array in a quarter of the cases; search: the plain cross product, then one widened input "
+                "class per case in turn (P forms, array tau / sigma, memory layouts, dtypes, scalar types and data magnitudes, "
+                "aliasing G / prox, save_objective_values, permuted A) and call histories on shared objects (module docstring)")
     ctx.assumptions += [
         "the solver classes (ConjugateGradient, GradientMethod, PrimalDualHybridGradient, ADMM, PowerMethod) are taken as "
         "given (C12/C13/C15); C14's theorems are about what LinearLeastSquares hands to them",
@@ -898,7 +1101,7 @@ def objective_value(c, A, Gd, y, z, x, with_g=True):
         v = x if Gd is None else Gd @ x
         lo, hi = float(F(c["prox"][1])), float(F(c["prox"][2]))
         infeas = float(np.max(np.maximum(np.maximum(lo - v.real, v.real - hi), 0)))
-    if c["prox"] is not None and with_g:
+    if c["prox"] is not None and c["prox"][0] != "noop" and with_g:
         v = x if Gd is None else Gd @ x
         k = c["prox"][0]
         if k == "l1":
@@ -919,7 +1122,7 @@ def reference(c, A, Gd, y, z):
     H = A.conj().T @ A + lam * np.eye(n)
     rhs = A.conj().T @ y + (0 if z is None else lam * z)
     Gm = np.eye(n) if Gd is None else Gd
-    k = None if c["prox"] is None else c["prox"][0]
+    k = None if c["prox"] is None or c["prox"][0] == "noop" else c["prox"][0]
     if np.linalg.eigvalsh(H + (Gm.conj().T @ Gm if k == "l2" else 0)).min() < 1e-3:
         return None
     if k is None:
@@ -975,102 +1178,290 @@ SCHEDULE = {"cg": [40], "gm": [400, 1600, 6400], "pdhg": [1500, 6000, 24000], "a
 TOL = 1e-6
 
 
+def feature_tags(c, short):
+    """the part of a finding key that names the input class beyond the option cross product (empty for the plain cases,
+    so keys of plain cases are unchanged)"""
+    t = ""
+    if short in ("cg", "admm") and c["P"] is not None and (c.get("Pkind") or "diag") != "diag":
+        t += ":P=" + c["Pkind"]
+    if short == "pdhg" and (c.get("tau_arr") is not None or c.get("sigma_arr") is not None):
+        t += ":steps=" + "+".join(k for k in ("tau", "sigma") if c.get(k + "_arr") is not None) + "-array"
+    if c.get("saveobj"):
+        t += ":save_objective_values"
+    return t
+
+
 def finding_key(c, short, what, y_changed):
     if y_changed and short in ("cg", "admm"):
         return "C14:CG/ADMM:AHy-inplace"
-    if short == "pdhg" and c["gkind"] is not None and c["lam"] != "0" and what != "y-modified":
+    if short == "pdhg" and c["gkind"] is not None and c["lam"] != "0" and what != "y-modified" and not feature_tags(c, short):
         return "C14:PDHG:G-and-lamda"
-    return "C14:%s:%s:G%d:lam%s:prox%d" % (short.upper(), what, c["gkind"] is not None, "+" if c["lam"] != "0" else "0",
-                                           c["prox"] is not None)
+    return "C14:%s:%s:G%d:lam%s:prox%d%s" % (short.upper(), what, c["gkind"] is not None, "+" if c["lam"] != "0" else "0",
+                                             c["prox"] is not None, feature_tags(c, short))
 
 
-def oracle(ctx, c, origin, budget_scale=1.0):
-    """runs the real app on case c; reports a failure through ctx.fail; returns a status string."""
+class Run:
+    """one LinearLeastSquares solve under the oracle: built, constructed, advanced stage by stage, judged"""
+    pass
+
+
+def start(ctx, c, origin, shared=None, case=None, tag="", warm=None):
+    """build the objects of case c, the reference optimum and the real app.  Returns a Run, or a status string
+    ('rejected', 'no-reference', 'fail')."""
+    case = case or dict(kind="oracle", case=c)
     try:
-        b = build(c)
+        b = build(c, shared=shared)
     except Exception:
         return "rejected"
+    if warm is not None:      # the array returned by the previous solve of a history, handed in as the start vector
+        b.x0 = warm.copy()
     np.random.seed(c["seed"] % (2 ** 31))
-    y0 = b.y.tobytes()
-    z0 = None if b.z is None else b.z.tobytes()
-    yv, zv = b.y.copy().ravel(), None if b.z is None else b.z.copy().ravel()
-    A, Gd = smooth_parts(c, b)
+    r = Run()
+    r.c, r.case, r.tag, r.origin = c, case, tag, origin
+    r.y0 = b.y.tobytes()
+    r.z0 = b.z.tobytes() if isinstance(b.z, np.ndarray) else None
+    s = scale_of(c)
+    # the reference problem is the unscaled one (exact homothety: x -> x / 2^k, objective / 4^k)
+    bu = build(unscaled(c))
+    r.yv = np.array(bu.y).ravel()
+    r.zv = None if bu.z is None else (np.array(bu.z).ravel() if isinstance(bu.z, np.ndarray) else np.full(c["n"], bu.z))
+    r.A, r.Gd = smooth_parts(c, bu)
+    r.s = s
     try:
         a = make_app(c, b, 1)
     except Exception as e:
         if c["solver"] is None:
             # solver=None is documented to choose a solver that supports the given proxg/G, and one exists
             # for every combination (the generator only builds shape-consistent instances)
-            ctx.fail("C14:None:rejected", "solver=None raised %s instead of choosing an applicable solver" % type(e).__name__,
-                     dict(kind="oracle", case=c), observed=repr(e), expected="a solver that supports proxg=%s, G=%s" % (
+            ctx.fail("C14:None:rejected" + tag, "solver=None raised %s instead of choosing an applicable solver" % type(e).__name__,
+                     case, observed=repr(e), expected="a solver that supports proxg=%s, G=%s" % (
                          c["prox"] and c["prox"][0], c["gkind"]), origin=origin)
             return "fail"
+        if wide_supported(c):
+            # a documented argument form (array step size, callable / Linop preconditioner, scalar z, any memory layout)
+            # on a combination whose plain form the constructor accepts
+            short = SHORT.get(c["solver"], "x")
+            ctx.fail(finding_key(c, short, "rejected", False) + tag,
+                     "the constructor raised %s on a supported combination of documented arguments" % type(e).__name__,
+                     case, observed=repr(e), expected="minimiser", origin=origin)
+            return "fail"
         return "rejected"
-    short = SHORT[type(a.alg).__name__]
-    ref = reference(c, A, Gd, yv, zv)
+    r.short = SHORT[type(a.alg).__name__]
+    ref = reference(unscaled(c), r.A, r.Gd, r.yv, r.zv)
     if ref is None:
         return "no-reference"
-    xstar, fstar = ref
-    box = c["prox"] is not None and c["prox"][0] == "box"
-    scale = max(1.0, abs(fstar))
-    sched = [int(N) for N in SCHEDULE[short]]
-    if b.y.tobytes() != y0:   # already the constructor wrote into y
-        a = None
+    r.xstar, r.fstar = ref
+    r.box = c["prox"] is not None and c["prox"][0] == "box"
+    r.scale = max(1.0, abs(r.fstar))
+    r.sched = [int(N) for N in SCHEDULE[r.short]]
+    if b.y.tobytes() != r.y0:   # already the constructor wrote into y
+        r.a = None
     else:
-        b = build(c)
+        b = build(c, shared=shared)
+        if warm is not None:
+            b.x0 = warm       # the very array object
         np.random.seed(c["seed"] % (2 ** 31))
-        a = make_app(c, b, sched[0])
-    gaps = []
-    status = None
-    total = 0
-    x = None
-    infeas = 0.0
-    for N in sched if a is not None else []:
-        try:
-            a.alg.max_iter = N      # later stages continue the same run
-            x = a.run()
-        except Exception as e:
-            ctx.fail(finding_key(c, short, "exception", False), "run() raised %s on a combination the constructor accepted" % type(e).__name__,
-                     dict(kind="oracle", case=c), observed=repr(e), expected="minimiser", origin=origin)
-            return "fail"
-        total = N
-        f, infeas = objective_value(c, A, Gd, yv, zv, x, with_g=not box)
-        gap = f - fstar
-        gaps.append(gap)
-        fin = np.all(np.isfinite(x))
-        if fin and gap <= TOL * scale and infeas <= 1e-5 and (not box or gap >= -1e-4 * scale):
-            status = "ok"
-            break
-    y_changed = b.y.tobytes() != y0 or (b.z is not None and b.z.tobytes() != z0)
-    if y_changed:
-        ctx.fail(finding_key(c, short, "y-modified", True), "run() modified the caller's y or z",
-                 dict(kind="oracle", case=c), observed="y/z bytes differ after run()", expected="y, z unchanged", origin=origin)
+        r.a = make_app(c, b, r.sched[0])
+    r.b = b
+    r.gaps, r.infs, r.status, r.total, r.x, r.infeas, r.stage = [], [], None, 0, None, 0.0, 0
+    return r
+
+
+def wide_supported(c):
+    """the case differs from a plain (accepted) one only by a documented form of an argument"""
+    if c["solver"] not in SOLVERS:
+        return False
+    if c["solver"] == "ConjugateGradient" and c["prox"] is not None:
+        return False
+    if c["solver"] == "GradientMethod" and c["gkind"] is not None:
+        return False
+    return bool(c.get("wide"))
+
+
+def advance(ctx, r):
+    """run the next stage of the schedule (the same app continues).  Returns True when the run is over
+    (converged, failed or out of stages)."""
+    if r.a is None or r.status is not None or r.stage >= len(r.sched):
+        return True
+    N = r.sched[r.stage]
+    r.stage += 1
+    c = r.c
+    try:
+        r.a.alg.max_iter = N      # later stages continue the same run
+        with np.errstate(all="ignore"):
+            x = r.a.run()
+    except Exception as e:
+        ctx.fail(finding_key(c, r.short, "exception", False) + r.tag,
+                 "run() raised %s on a combination the constructor accepted" % type(e).__name__,
+                 r.case, observed=repr(e), expected="minimiser", origin=r.origin)
+        r.status = "fail"
+        return True
+    r.total = N
+    r.x = x
+    with np.errstate(all="ignore"):
+        f, r.infeas = objective_value(unscaled(c), r.A, r.Gd, r.yv, r.zv, np.asarray(x) / r.s, with_g=not r.box)
+    gap = f - r.fstar
+    r.gaps.append(gap)
+    r.infs.append(r.infeas)
+    fin = np.all(np.isfinite(x))
+    if fin and gap <= TOL * r.scale and r.infeas <= 1e-5 and (not r.box or gap >= -1e-4 * r.scale):
+        r.status = "ok"
+        return True
+    return r.stage >= len(r.sched)
+
+
+def conclude(ctx, r):
+    """judge a finished run; returns the status string"""
+    c, b, x = r.c, r.b, r.x
+    if r.status == "fail":
         return "fail"
-    if status == "ok":
+    y_changed = b.y.tobytes() != r.y0 or (r.z0 is not None and b.z.tobytes() != r.z0)
+    if y_changed:
+        ctx.fail(finding_key(c, r.short, "y-modified", True) + r.tag, "run() modified the caller's y or z",
+                 r.case, observed="y/z bytes differ after run()", expected="y, z unchanged", origin=r.origin)
+        return "fail"
+    if r.status == "ok":
         # the app's own objective() must be the documented objective (it is what save_objective_values records)
-        fdoc, inf2 = objective_value(c, A, Gd, yv, zv, x)
-        if math.isfinite(fdoc) and not box:   # (box: g is the harness's own 0/inf indicator, rounding-sensitive)
+        cu = unscaled(c)
+        fdoc, inf2 = objective_value(cu, r.A, r.Gd, r.yv, r.zv, np.asarray(x) / r.s)
+        fdoc = fdoc * r.s * r.s
+        if math.isfinite(fdoc) and not r.box:   # (box: g is the harness's own 0/inf indicator, rounding-sensitive)
             try:
-                fapp = a.objective()
+                fapp = r.a.objective()
             except Exception as e:
                 fapp = repr(e)
-            if not (isinstance(fapp, float) and abs(fapp - fdoc) <= 1e-9 * max(1.0, abs(fdoc))):
-                ctx.fail("C14:objective", "objective() differs from the documented objective at the returned x",
-                         dict(kind="oracle", case=c), observed=fapp, expected=fdoc, origin=origin)
+            otol = 1e-4 if c.get("single") else 1e-9    # (single: observed 1e-7, a wrong term is O(1))
+            if not (isinstance(fapp, float) and abs(fapp - fdoc) <= otol * max(r.s * r.s, abs(fdoc))):
+                ctx.fail("C14:objective" + r.tag, "objective() differs from the documented objective at the returned x",
+                         r.case, observed=fapp, expected=fdoc, origin=r.origin)
                 return "fail"
+            if c.get("saveobj"):
+                ov = getattr(r.a, "objective_values", None)
+                if not (isinstance(ov, list) and len(ov) >= 2 and abs(ov[-1] - fdoc) <= otol * max(r.s * r.s, abs(fdoc))):
+                    ctx.fail("C14:objective_values" + r.tag, "save_objective_values: the last recorded value is not the documented "
+                             "objective at the returned x", r.case, observed=None if not isinstance(ov, list) else ov[-3:],
+                             expected=fdoc, origin=r.origin)
+                    return "fail"
         return "ok"
+    if r.a is None:
+        return "fail"
     # not within tolerance after the longest run: a violation only when it is not merely slow —
     # the gap stopped shrinking (plateau at another problem's minimiser) or the iterates blew up
+    gaps = r.gaps
     fin = x is not None and np.all(np.isfinite(x))
-    slow = fin and len(gaps) >= 2 and gaps[-1] > 0 and gaps[-1] < 0.25 * gaps[-2] and infeas <= 1e-3
+    slow = fin and len(gaps) >= 2 and gaps[-1] > 0 and gaps[-1] < 0.25 * gaps[-2] and r.infeas <= 1e-3
     if slow:
         return "slow"
-    ctx.fail(finding_key(c, short, "gap", False),
+    # box constraint approached from outside (the smooth part is then BELOW the optimum): still converging when both
+    # the distance to the box and the objective difference keep shrinking at that rate
+    if (fin and r.box and len(gaps) >= 2 and 0 < r.infeas <= 1e-3 and r.infs[-1] < 0.25 * r.infs[-2]
+            and abs(gaps[-1]) < 0.25 * abs(gaps[-2])):
+        return "slow"
+    ctx.fail(finding_key(c, r.short, "gap", False) + r.tag,
              "objective at the returned x is not within tolerance of the optimum of 0.5||Ax-y||^2+g(Gx)+lamda/2||x-z||^2",
-             dict(kind="oracle", case=c),
-             observed=dict(x=None if x is None else np.ravel(x).tolist(), objective_gaps=gaps, infeasibility=infeas, iterations=total),
-             expected=dict(x=np.ravel(xstar).tolist(), objective=fstar, tol=TOL * scale), origin=origin)
+             r.case,
+             observed=dict(x=None if x is None else np.ravel(x).tolist(), objective_gaps=gaps, infeasibility=r.infeas,
+                           iterations=r.total, data_scale=r.s),
+             expected=dict(x=(np.ravel(r.xstar) * r.s).tolist(), objective=r.fstar, tol=TOL * r.scale,
+                           note="objective / gaps are those of the problem with the data divided by data_scale"), origin=r.origin)
     return "fail"
+
+
+def oracle(ctx, c, origin, budget_scale=1.0, shared=None, case=None, tag="", warm=None, out=None):
+    """runs the real app on case c; reports a failure through ctx.fail; returns a status string."""
+    r = start(ctx, c, origin, shared=shared, case=case, tag=tag, warm=warm)
+    if out is not None:
+        out.append(r)
+    if isinstance(r, str):
+        return r
+    if r.a is None:
+        ctx.fail(finding_key(c, r.short, "y-modified", True) + tag, "the constructor modified the caller's y",
+                 r.case, observed="y bytes differ after LinearLeastSquares(...)", expected="y unchanged", origin=origin)
+        return "fail"
+    while not advance(ctx, r):
+        pass
+    return conclude(ctx, r)
+
+
+# ---- call histories: several solves that share operator / prox / preconditioner objects ------------------------------
+def quiet_ctx():
+    return common.Ctx(PROPERTY, "quick", 0)
+
+
+def oracle_history(ctx, h, origin):
+    """h = dict(kind='history', steps=[case, ...], mode='sequential' | 'interleaved').
+    Every solve of the history must return the minimiser of ITS OWN problem (the property is about each call; nothing
+    in it depends on what was solved before with the same Linop / Prox objects).
+    sequential : the solves run one after the other.
+    interleaved: all apps are constructed first, then advanced in turn (two or more live objects).
+    A step that fails is re-run alone on fresh objects: if it then holds, the finding is history-dependent and the whole
+    history is the failing input; otherwise the step alone is reported."""
+    steps = h["steps"]
+    shared = {}
+    case = dict(kind="history", history=h)
+    statuses = []
+    probe = quiet_ctx()
+
+    def report(k):
+        f = probe.failures[-1]
+        alone = quiet_ctx()
+        st = oracle(alone, steps[k], origin)
+        if st == "fail":
+            fa = alone.failures[0]
+            ctx.fail(fa["key"], fa["what"], dict(kind="oracle", case=steps[k]), fa["observed"], fa["expected"], origin)
+        else:
+            ctx.fail(f["key"] + ":history", f["what"] + " — in solve #%d of a %s history that shares the operator objects "
+                     "(the same call alone on fresh objects: %s)" % (k + 1, h["mode"], st),
+                     dict(kind="history", history=h, failing_step=k), f["observed"], f["expected"], origin)
+
+    if h["mode"] == "sequential":
+        prev = None
+        for k, c in enumerate(steps):
+            n0 = len(probe.failures)
+            out = []
+            warm = prev if (h.get("warm") and prev is not None and c["x0"] is not None) else None
+            st = oracle(probe, c, origin, shared=shared, case=case, warm=warm, out=out)
+            prev = out[0].x if (st == "ok" and isinstance(out[0].x, np.ndarray)) else None
+            statuses.append(st)
+            if st == "fail" and len(probe.failures) > n0:
+                report(k)
+                return "fail"
+        return "ok" if all(t == "ok" for t in statuses) else ",".join(sorted(set(statuses)))
+    runs = []
+    for k, c in enumerate(steps):
+        n0 = len(probe.failures)
+        r = start(probe, c, origin, shared=shared, case=case)
+        if isinstance(r, str):
+            if r == "fail" and len(probe.failures) > n0:
+                report(k)
+                return "fail"
+            statuses.append(r)
+            continue
+        if r.a is None:
+            probe.fail(finding_key(c, r.short, "y-modified", True), "the constructor modified the caller's y", case)
+            report(k)
+            return "fail"
+        runs.append((k, r))
+    live = list(runs)
+    while live:
+        nxt = []
+        for k, r in live:
+            n0 = len(probe.failures)
+            over = advance(probe, r)
+            if len(probe.failures) > n0:
+                report(k)
+                return "fail"
+            if not over:
+                nxt.append((k, r))
+        live = nxt
+    for k, r in runs:
+        n0 = len(probe.failures)
+        st = conclude(probe, r)
+        statuses.append(st)
+        if st == "fail" and len(probe.failures) > n0:
+            report(k)
+            return "fail"
+    return "ok" if all(t == "ok" for t in statuses) else ",".join(sorted(set(statuses)))
 
 
 def cplx_case(rng):
@@ -1131,12 +1522,231 @@ def observe_power_gap(ctx, ncases):
                      % (runs, over, worst - 1.0, incr, worst_incr))
 
 
+# ---- widened input classes (search oracle) ----------------------------------------------------------------------------
+WIDE_FOCUS = ["P", "tau", "sigma", "tausigma", "layout", "dtype", "scalars", "alias", "saveobj", "perm", "tau", "P"]
+
+
+def permute_A(c, rng):
+    """a dense A whose dominant entries are NOT on the diagonal (column permutation: same singular values)"""
+    if c["akind"] != "matmul":
+        return
+    n = c["n"]
+    perm = list(range(n))
+    while perm == list(range(n)):
+        perm = rng.choice([perm[::-1], rng.sample(perm, n)])
+    c["A"] = [[r[j] for j in perm] for r in c["A"]]
+    if c.get("Aim"):
+        c["Aim"] = [[r[j] for j in perm] for r in c["Aim"]]
+
+
+def spread(rng, k, vals=(Fr(1, 8), Fr(1, 4), Fr(1, 2), Fr(1), Fr(2), Fr(4))):
+    """k positive dyadic values, not all equal (a diagonal step-size preconditioner)"""
+    while True:
+        v = [rng.choice(vals) for _ in range(k)]
+        if len(set(v)) > 1:
+            return v
+
+
+def kmatrix(c):
+    A = dense_A(c)
+    Gd = dense_G(c)
+    return A if Gd is None else np.vstack([A, Gd])
+
+
+def widen(c, rng, focus):
+    """takes a plain case to a neighbouring input class the property equally quantifies over (DESIGN.md §3 C14 R:
+    every supported combination of solver, lamda, z, proxg, G, preconditioner or step-size arguments and initial x;
+    all small real/complex A, y).  Everything needed to rebuild the inputs is written into the case."""
+    c["wide"] = focus
+    n, m = c["n"], c["m"]
+    if focus == "P":
+        # preconditioner forms: Linop / callable, returning a fresh array or the very array it was given; dense SPD
+        if c["solver"] not in ("ConjugateGradient", "ADMM"):
+            c["solver"] = rng.choice(["ConjugateGradient", "ADMM"])
+        if c["solver"] == "ConjugateGradient":
+            c["prox"] = None
+        kind = rng.choice(["identity", "mul1", "func", "funcdiag", "dense", "identity", "func"])
+        c["Pkind"] = kind
+        c["P"] = ["1"] * n if kind in P_RETURNS_INPUT else [fs(rng.choice([Fr(1, 2), Fr(1), Fr(2)])) for _ in range(n)]
+        if kind == "dense":
+            while True:
+                B = np.array([[rng.randint(-1, 1) / 2 for _ in range(n)] for _ in range(n)])
+                Pm = B.T @ B + np.eye(n)
+                if np.linalg.cond(Pm) < 8:
+                    break
+            c["Pmat"] = [[fs(Fr(float(t))) for t in r] for r in Pm]
+        if rng.random() < 0.5:
+            permute_A(c, rng)
+    elif focus in ("tau", "sigma", "tausigma"):
+        # array step sizes (diagonal preconditioners) for the primal-dual solver, the other one defaulted or given
+        c["solver"] = "PrimalDualHybridGradient" if (c["prox"] is None or c["gkind"] is None or rng.random() < 0.7) else None
+        if rng.random() < 0.7:
+            permute_A(c, rng)       # couples coefficients that carry different step sizes
+        c["tau"], c["sigma"] = None, None
+        if focus == "tausigma" and c["gkind"] is not None and c["prox"] is not None and c["prox"][0] == "box" and c["lam"] == "0":
+            # (a box on G x without strong convexity reaches feasibility only in the limit: too slow for the schedule
+            # when both step arrays are unbalanced)
+            c["lam"] = "1/2"
+        K = kmatrix(c)
+        d = K.shape[0]
+        uniform = rng.random() < 0.15
+        if focus == "tau":
+            c["tau_arr"] = [fs(t) for t in ([rng.choice([Fr(1, 4), Fr(1), Fr(2)])] * n if uniform else spread(rng, n))]
+        elif focus == "sigma":
+            c["sigma_arr"] = [fs(t) for t in ([rng.choice([Fr(1, 4), Fr(1), Fr(2)])] * d if uniform else spread(rng, d))]
+        else:
+            # (both given: a moderate spread, so that "enough iterations" stays within the oracle's schedule)
+            t, w = spread(rng, n, (Fr(1, 2), Fr(1), Fr(2), Fr(4))), spread(rng, d, (Fr(1, 2), Fr(1), Fr(2)))
+            M = np.diag([float(x) ** 0.5 for x in w]) @ K @ np.diag([float(x) ** 0.5 for x in t])
+            sc = pow2_below(0.9 / np.linalg.eigvalsh(M.T @ M).max())     # ||S^1/2 K T^1/2||^2 <= 0.9
+            c["tau_arr"] = [fs(x) for x in t]
+            c["sigma_arr"] = [fs(x * sc) for x in w]
+    elif focus == "layout":
+        c["layout"] = dict(y=rng.choice(["strided", "neg", "offset", "readonly"]),
+                           z=rng.choice(["c", "strided", "neg", "readonly"]),
+                           x0=rng.choice(["c", "strided", "neg", "offset"]),
+                           A=rng.choice(["c", "f", "strided", "neg"]),
+                           G=rng.choice(["c", "f", "strided"]))
+        if c["x0"] is None and rng.random() < 0.6:
+            c["x0"] = [fs(dy(rng, -2, 2, 2)) for _ in range(n)]
+    elif focus == "dtype":
+        # complex data with a real operator; complex data with a complex start vector
+        if not c.get("cplx"):
+            c["ycplx"] = True
+            c["yim"] = [rng.randint(-4, 4) / 2 for _ in range(m)]
+            if c["z"] is not None and rng.random() < 0.6:
+                c["zim"] = [rng.randint(-3, 3) / 2 for _ in range(n)]
+            if c["prox"] is not None and c["prox"][0] in ("l1", "box"):
+                c["prox"] = ["l2", "1"]
+        if rng.random() < 0.6:
+            c["x0"] = [fs(dy(rng, -2, 2, 2)) for _ in range(n)]
+            c["x0im"] = [rng.randint(-2, 2) / 2 for _ in range(n)]
+        r_ = rng.random()
+        if r_ < 0.35:
+            # single precision data; real single precision data keeps every prox kind
+            c["single"] = True
+            if r_ < 0.2 and c.get("ycplx"):
+                c["ycplx"] = False
+                c.pop("zim", None)
+                c.pop("x0im", None)
+        elif r_ < 0.6 and not c.get("cplx") and c["akind"] in ("matmul", "diag"):
+            c["A"] = [[fs(2 * F(t)) for t in r] for r in c["A"]]
+            c["Aint"] = True
+    elif focus == "scalars":
+        # scalar options as Python ints, z as the documented float, data of very small / very large magnitude
+        c["intargs"] = True
+        if rng.random() < 0.6:
+            c["lam"] = fs(rng.choice([Fr(1), Fr(2), Fr(3)]))
+        if rng.random() < 0.5:
+            c["rho"] = fs(rng.choice([Fr(1), Fr(2), Fr(4)]))
+        if c["lam"] != "0" and rng.random() < 0.5:
+            c["z"] = [fs(dy(rng, -3, 3, 2))] * n
+            c["zscalar"] = True
+        if rng.random() < 0.7:
+            c["yscale"] = rng.choice([-40, -20, 20, 40])
+    elif focus == "alias":
+        # regularisation operators / prox objects that hand back their input, G the very object passed as A
+        c["gkind"] = rng.choice(["identity", "mul1", "reshape", "A"])
+        c["G"] = None
+        if c["solver"] == "GradientMethod":
+            c["solver"] = rng.choice([None, "PrimalDualHybridGradient", "ADMM"])
+        if c["solver"] == "ConjugateGradient":
+            c["prox"] = None
+        elif rng.random() < 0.3:
+            c["prox"] = ["noop"]
+        if c["gkind"] == "A" and c["akind"] == "reshape":
+            c["gkind"] = "reshape"
+    elif focus == "saveobj":
+        c["saveobj"] = True
+        if rng.random() < 0.5:
+            c["akind"] = rng.choice(["identity", "mul1", "reshape"])
+            c["m"] = n
+            c["A"] = [[fs(Fr(int(i == j))) for j in range(n)] for i in range(n)]
+            c["y"] = (c["y"] + ["1"] * n)[:n]
+    elif focus == "perm":
+        permute_A(c, rng)
+        c["alpha"], c["tau"], c["sigma"] = None, None, None
+    return c
+
+
+def history_case(rng):
+    """a call history: 2-4 solves that share the forward operator object (and G / prox / P objects whenever their
+    specification coincides), with one or more options swept in sequence; sequential or interleaved"""
+    base = gen_case(rng, force=dict(akind=rng.choice(["matmul", "matmul", "diag", "identity", "mul1", "reshape"])))
+    base["alpha"], base["tau"], base["sigma"] = None, None, None
+    sweep = rng.choice(["lam-up", "lam-up", "lam-down", "lam-mixed", "solver", "z", "y", "prox", "steps", "rho", "A"])
+    k = rng.choice([2, 3, 3, 4])
+    lams = [Fr(0), Fr(1, 8), Fr(1, 2), Fr(1), Fr(2), Fr(4), Fr(8), Fr(32)]
+    if sweep == "lam-up":
+        ls = sorted(rng.sample(lams, k))
+    elif sweep == "lam-down":
+        ls = sorted(rng.sample(lams, k), reverse=True)
+    elif sweep == "lam-mixed":
+        ls = [rng.choice(lams) for _ in range(k)]
+    else:
+        ls = [F(base["lam"])] * k
+    if sweep.startswith("lam") and rng.random() < 0.6:
+        # keep the solver that takes its step from the operator norm in the sweep
+        base["solver"] = rng.choice(["GradientMethod", "PrimalDualHybridGradient", None])
+        if base["solver"] == "GradientMethod":
+            base["gkind"], base["G"] = None, None
+    steps = []
+    for i in range(k):
+        c = json.loads(json.dumps(base))
+        c["seed"] = rng.randint(0, 10 ** 6)
+        c["lam"] = fs(ls[i])
+        if sweep == "solver" and i > 0:
+            c["solver"] = rng.choice([None] + SOLVERS)
+            if c["solver"] == "ConjugateGradient":
+                c["prox"] = None
+            if c["solver"] == "GradientMethod":
+                c["gkind"], c["G"] = None, None
+        if sweep == "z" and i > 0:
+            c["z"] = None if rng.random() < 0.3 else [fs(dy(rng, -3, 3, 2)) for _ in range(c["n"])]
+            if c["lam"] == "0":
+                c["lam"] = "1"
+        if sweep == "y" and i > 0:
+            c["y"] = [fs(dy(rng, -4, 4, 2)) for _ in c["y"]]
+            if all(t == "0" for t in c["y"]):
+                c["y"][0] = "1"
+        if sweep == "prox" and i > 0:
+            pk = rng.choice([None, "l1", "l2", "box"])
+            c["prox"] = {None: None, "l1": ["l1", fs(rng.choice([Fr(1, 4), Fr(1)]))], "l2": ["l2", fs(rng.choice([Fr(1, 2), Fr(2)]))],
+                         "box": ["box", "-1/2", "1/2"]}[pk]
+            if c["solver"] == "ConjugateGradient" and c["prox"] is not None:
+                c["solver"] = None
+        if sweep == "steps" and i > 0:
+            explicit_steps(c, rng, alpha=rng.random() < 0.5, tau=rng.random() < 0.5, sigma=rng.random() < 0.3)
+        if sweep == "A" and i > 0:
+            # another operator OBJECT of the same shape and class (nothing may be carried over by shape / repr)
+            n_, m_ = c["n"], c["m"]
+            f_ = rng.choice([1, 2, 3])
+            if c["akind"] == "matmul":
+                c["A"] = [[fs(f_ * t) for t in r] for r in gen_matrix(rng, m_, n_)]
+            else:
+                c["akind"] = "diag"
+                d_ = [f_ * Fr(rng.choice([2, 3, 4, 5, 6]), 2) * rng.choice([1, -1]) for _ in range(n_)]
+                c["A"] = [[fs(d_[a_] if a_ == b_ else Fr(0)) for b_ in range(n_)] for a_ in range(n_)]
+        if sweep == "rho" and i > 0:
+            c["rho"] = fs(rng.choice([Fr(1, 2), Fr(1), Fr(2), Fr(4)]))
+            if rng.random() < 0.5:
+                c["solver"] = "ADMM"
+        if c["x0"] is not None and i > 0 and rng.random() < 0.5:
+            c["x0"] = None
+        steps.append(c)
+    mode = rng.choice(["sequential", "sequential", "interleaved"])
+    return dict(kind="history", sweep=sweep, mode=mode, warm=(mode == "sequential" and rng.random() < 0.4), steps=steps)
+
+
 def search(ctx, budget):
     rng = ctx.rng
     # 1. the disagreeing cases first
     for d in ctx.disagreements[:40]:
         cc = d["case"]
-        if "case" in cc:
+        if "history" in cc:     # a set-up that differs from the model only after earlier set-ups on the same objects
+            st = oracle_history(ctx, cc["history"], "disagreement")
+            ctx.count("oracle:" + (st if st in ("ok", "fail") else "other"))
+        elif "case" in cc:
             st = oracle(ctx, cc["case"], "disagreement")
             ctx.count("oracle:" + st)
     if any(d["stream"] == "power" for d in ctx.disagreements):
@@ -1171,7 +1781,45 @@ def search(ctx, budget):
         ctx.case(("oracle", json.dumps(c, sort_keys=True)), nontrivial=st not in ("rejected", "no-reference"))
         ctx.count("oracle:" + st)
         ctx.count("oracle-solver:%s" % c["solver"])
+    # 3. the same oracle on neighbouring input classes: argument forms, memory layouts, dtypes, magnitudes, aliasing
+    #    operator / prox / preconditioner objects (one focus per case, in turn, so every class is visited in every run)
+    nw = int(WIDE_N * budget)
+    for i in range(nw):
+        if len(ctx.failures) >= 12:
+            break
+        focus = WIDE_FOCUS[i % len(WIDE_FOCUS)]
+        solver = ([None] + SOLVERS)[(i // len(WIDE_FOCUS)) % 5]
+        if focus == "dtype" and rng.random() < 0.4:
+            c = cplx_case(rng)
+            c["solver"] = solver
+        else:
+            c = gen_case(rng, solver=solver)
+            if focus in ("P", "tau", "sigma", "tausigma", "perm") and c["akind"] != "matmul" and rng.random() < 0.8:
+                c = gen_case(rng, solver=solver, force=dict(akind="matmul"))
+        if c["solver"] == "ConjugateGradient":     # (the rejection table is the `sel` stream's business)
+            c["prox"] = None
+        if c["solver"] == "GradientMethod":
+            c["gkind"], c["G"] = None, None
+        c = widen(c, rng, focus)
+        st = oracle(ctx, c, "search-wide")
+        ctx.case(("oracle-wide", json.dumps(c, sort_keys=True)), nontrivial=st not in ("rejected", "no-reference"))
+        ctx.count("oracle-wide:%s:%s" % (focus, st))
+    # 4. call histories on shared objects
+    nh = int(HISTORY_N * budget)
+    for i in range(nh):
+        if len(ctx.failures) >= 14:
+            break
+        h = history_case(rng)
+        st = oracle_history(ctx, h, "search-history")
+        ctx.case(("oracle-history", json.dumps(h, sort_keys=True)), nontrivial=st == "ok" or st == "fail")
+        ctx.count("oracle-history:%s:%s:%s" % (h["sweep"], h["mode"], st if st in ("ok", "fail") else "other"))
     ctx.notes.append("oracle outcomes: " + ", ".join("%s=%d" % (k[7:], v) for k, v in sorted(ctx.counts.items()) if k.startswith("oracle:")))
+    ctx.notes.append("widened oracle outcomes: " + ", ".join("%s=%d" % (k[12:], v) for k, v in sorted(ctx.counts.items()) if k.startswith("oracle-wide:")))
+    ctx.notes.append("history oracle outcomes: " + ", ".join("%s=%d" % (k[15:], v) for k, v in sorted(ctx.counts.items()) if k.startswith("oracle-history:")))
+
+
+WIDE_N = 156
+HISTORY_N = 48
 
 
 def replay(path):
@@ -1181,7 +1829,10 @@ def replay(path):
         return 0
     cc = r["case"]
     ctx = common.Ctx(PROPERTY, "quick", 0)
-    st = oracle(ctx, cc["case"], "replay")
+    if cc.get("kind") == "history":
+        st = oracle_history(ctx, cc["history"], "replay")
+    else:
+        st = oracle(ctx, cc["case"], "replay")
     for f in ctx.failures:
         print("observed:", f["observed"])
         print("expected:", f["expected"])
